@@ -79,7 +79,7 @@ def _work(idx):
                 rec = {"v": v, "trace": None, "reproduced": None}
                 # reproduce through the public API: pin the raw values, call solve()
                 try:
-                    b2 = B.build(p)
+                    b2 = B.build(p, **A.build_kwargs(opts.get("build_kw"), opts.get("solver_kw", {})))
                     import processscheduler as ps
                     raw = v["raw"]
                     for i, t in enumerate(b2.tasks):
